@@ -112,6 +112,21 @@ CHECKS = {
              'position makes the concatenated streams differ (the shape chunk has no ndim prefix: A-SHAPE-FRAMING).',
         technique='AST-generated verification conditions over the real source with a trace model of the hash object, z3; bounded native replay in fresh processes with different hash seeds',
         design_ref='Part III C16'),
+    'C07': dict(
+        category='proof',
+        text='Grids, all extents and any buffer >= 1: blur_mask (real body: pad, nditer, window any, fromiter, reshape) marks '
+             'exactly the cells within `size` steps in any of the eight directions of a marked cell (both directions of '
+             'the equivalence proved with Skolem witnesses) and is monotone in mask and size; smear_mask for the three '
+             'patterns marks exactly the edges / nodes of marked cells; c_mask_from_centres; CFGrid.make_clip_mask and '
+             'ArakawaC.make_clip_mask mark exactly the cells whose polygon intersects (one STRtree query, predicate '
+             'intersects, written through a flat *view*), plus rings. Mesh part (buffer_faces, mask_from_face_indexes, '
+             'UGrid.make_clip_mask: node-sharing rings, contiguous renumbering in original order) is carried by the '
+             'bounded native stand-in only, together with the exhaustive <= 4x4 clause of the property.',
+        note=TRUST + 'Assumed: contracts of Convention.polygons / strtree (contracts/base.py, verified under C02/C06), '
+             'SH-STRTREE-QUERY, NP-PAD, NP-NDITER-MULTI-INDEX, NP-FROMITER, NP-RAVEL-VIEW, NP-RESHAPE, NP-ANY-ALL with '
+             'Skolem witnesses. Mesh functions: bounded only (labelled in evidence).',
+        technique='AST-generated verification conditions over the real source with existential witnesses (QUANT-SKOLEM), z3; exhaustive native enumeration up to 4x4',
+        design_ref='Part III C07'),
 }
 
 NOT_YET = 'check not built yet (work in progress, see DESIGN.md)'
